@@ -37,6 +37,12 @@ def run(ctx):
     checksum_helpers(ctx, P)
     mpi_length_not_exact(ctx, P)
     unlock_failure_in_outer_result(ctx, P)
+    from rules import tables
+    tables.bit_counts_round_up(ctx, P)
+    # a recipient field that does not parse must not silently become "no recipient" (the wildcard that matches every key): no error
+    # is dropped while the identifiers of ESK packets are read (R-err of C09 restricted to those parsers)
+    from rules import stream
+    stream.r_err(ctx, P, only=r'packet::(public_key_encrypted_session_key|sym_key_encrypted_session_key)::|types::(pkesk|fingerprint|key_id)::', floor=250)
 
 
 def unlock_failure_in_outer_result(ctx, P):
